@@ -176,8 +176,14 @@ def run(ctx):
     spec_lines, spec_meta = [], []
     seen_bytes = {}
     for bits, t, layout in gen_cases(ctx):
-        p = PackedTensor.pack(t, bits)
-        u = p.unpack()
+        try:
+            p = PackedTensor.pack(t, bits)
+            u = p.unpack()
+            all_routes(p._data, bits)
+        except Exception as e:  # noqa
+            ctx.spec_failures.append((f"C04:pack-or-unpack-raises:{exc_name(e)}", {"bits": bits, "shape": list(t.shape), "layout": layout, "message": str(e)[:200],
+                                                                               "data": t.contiguous().reshape(-1).tolist()[:64]}))
+            continue
         lines.append(f"pack {bits} {tline(t)}")
         expect.append(tline(p._data))
         meta.append(("pack", bits, list(t.shape), layout))
